@@ -75,6 +75,42 @@ def importD (f : DFolder) (c : Nat) : After :=
   let b := saveD a.data c
   ⟨b.data, a.old0, b.failed⟩
 
+/-! ### the raft state manager's `ImportState` as an INTERPRETED operation list (round 8c)
+
+`harness/extract_c14` reads the folder-relevant operations of `raftStateManager.ImportState` from the syntax tree
+(`Gen.SemImport.raftImportOps`, strings); `decodeOp` turns them into `IOp`s (unknown ⇒ `none` ⇒ the run is `none`: fail-closed) and
+`runImport` executes them on the folder model. `Props`: the regenerated list, interpreted, IS `importD` — so an edit that drops
+or moves the `Clean` changes what the model computes (e.g. on a folder whose newest snapshot is damaged the import then fails). -/
+inductive IOp where
+  | clean | store | offline | imp | save
+  deriving DecidableEq, Repr
+
+def decodeOp (s : String) : Option IOp :=
+  if s == "clean!" then some .clean else if s == "store!" then some .store else if s == "offline!" then some .offline
+  else if s == "import!" then some .imp else if s == "save!" then some .save else none
+
+/-- `st`: the state object in hand (`none` = none yet; `some 0` = the empty pinset) -/
+def runImport : List (Option IOp) → DFolder → DFolder → Option Nat → Nat → Option After
+  | [], _, _, _, _ => none                      -- no `return SnapshotSave(…)` at the end: not a function this model knows
+  | none :: _, _, _, _, _ => none
+  | some .clean :: rest, data, old0, st, c =>
+    runImport rest (cleanupD data).data (if (cleanupD data).old0.isSome then (cleanupD data).old0 else old0) st c
+  | some .store :: rest, data, old0, st, c => runImport rest data old0 st c
+  | some .offline :: rest, data, old0, _, c =>
+    match offlineD data with
+    | .broken => some ⟨data, old0, true⟩          -- the error of GetOfflineState ends the import; nothing was touched
+    | .absent => runImport rest data old0 (some 0) c
+    | .nosnap => runImport rest data old0 (some 0) c
+    | .pins n => if n = 0 then runImport rest data old0 (some 0) c else none   -- import INTO a pinset: a union, outside this model
+  | some .imp :: rest, data, old0, st, c =>
+    match st with
+    | some 0 => runImport rest data old0 (some c) c
+    | _ => none
+  | some .save :: _, data, old0, st, _ =>
+    match st with
+    | some x => some ⟨(saveD data x).data, if (saveD data x).old0.isSome then (saveD data x).old0 else old0, (saveD data x).failed⟩
+    | none => none
+
 def countD : DFolder → Nat
   | none => 0
   | some l => l.length
